@@ -317,19 +317,24 @@ def main():
             'lij': lambda rec: harness.run_laws_concrete(lij_scaling(rec['extra']['cfg'], rec['extra']['large']), rec)})
     chk = run.Check(
         'C04',
-        functions=[loader.func_hash(f) for f in (OnsagerCalc.VacancyMediated.preene2betafree, OnsagerCalc.Interstitial.diffusivity,
+        functions=[loader.func_hash(f) for f in (OnsagerCalc.VacancyMediated.preene2betafree, OnsagerCalc.VacancyMediated.Lij, OnsagerCalc.VacancyMediated._symmetricandescaperates, OnsagerCalc.Interstitial.diffusivity,
                                                  OnsagerCalc.Interstitial.siteprob, OnsagerCalc.Interstitial.ratelist,
                                                  OnsagerCalc.Interstitial.symmratelist)],
         assumptions=[
             'floats as reals; prefactors are positive reals passed as exp(L) (monomial algebra), kT>0, lambda>0',
             'preene2betafree: array lengths enumerated (<=3 each); all entries symbolic; every np.min path explored',
             'Interstitial part on exact verification crystals only (see C02); solve/pinv contracts including their uniqueness instances (scipy solve raises on singular matrices; the Moore-Penrose inverse is unique)',
-            'NOT covered: homogeneity/invariance of VacancyMediated.Lij itself (numerical Green function) and invariance under '
-            'intra-cell site displacement (two different crystals): a change confined to Lij is not detected by this check',
+            'VacancyMediated.Lij rate scaling: the Green-function calculator is an abstract environment (arbitrary value per query, '
+            'arbitrary symmetric bare diffusivity and bias correction) whose CONTRACT is the scaling G -> G/lambda, D -> lambda D, eta '
+            'unchanged when every rate is multiplied by lambda (that the real calculator has it is part of C10: not decided here); '
+            'energies through the monomial algebra; rational identities are decided after clearing denominators (denominators are '
+            'monomials in positive variables or sums of such); the matrices inverted in the two runs are shown equal in that normal '
+            'form and then share their inverse unknowns; the large-omega2 branch is out-of-model (eigh of a lambda-dependent matrix)',
+            'NOT covered: invariance under intra-cell site displacement (two different crystals)',
         ],
-        explanation='Real preene2betafree and Interstitial.diffusivity executed twice on symbolic inputs related by the '
-                    'reference change; outputs compared term-wise by z3 (exact real algebra).',
-        bounds='preene2betafree shapes %s (quick) / %s (thorough); interstitial on X1s, X1, X4r, X2 (+X2b, X3 thorough)' % (SHAPES_Q, SHAPES_T))
+        explanation='Real preene2betafree, Interstitial.diffusivity and VacancyMediated.Lij executed twice on symbolic inputs related by '
+                    'the reference change / rate scaling; outputs compared term-wise by z3 (exact real algebra).',
+        bounds='preene2betafree shapes %s (quick) / %s (thorough); interstitial on X1s, X1, X4r, X2 (+X2b, X3 thorough); Lij scaling on square-1, sc-1 (+square-2 thorough)' % (SHAPES_Q, SHAPES_T))
     chk.run(sections(chk.tier))
     chk.finish()
 
